@@ -53,9 +53,9 @@ ST = "aioesphomeapi.connection.ConnectionState"
 INV = [
     ("I1-connected-flag", f"iff(self.is_connected, {S} is CS.CONNECTED)", ["C05"]),
     ("I1-handshake-flag", f"iff(self._handshake_complete, {S} is CS.HANDSHAKE_COMPLETE or {S} is CS.CONNECTED)", ["C05"]),
-    ("I2-closed-released", f"implies({S} is CS.CLOSED, self._ping_timer is None "
-                           "and self._pong_timer is None and set_empty(self._read_exception_futures) "
-                           "and fut_done_or_none(self._start_connect_future) and fut_done_or_none(self._finish_connect_future))", ["C08"]),
+    ("I2-closed-released", f"implies({S} is CS.CLOSED, self._ping_timer is None and self._pong_timer is None)", ["C08"]),
+    ("I2-closed-releases-waiters", f"implies({S} is CS.CLOSED, set_empty(self._read_exception_futures) "
+                                   "and fut_done_or_none(self._start_connect_future) and fut_done_or_none(self._finish_connect_future))", ["C08"]),
     ("I2-closed-releases-transport", f"implies({S} is CS.CLOSED and not ghost.in_phase, self._frame_helper is None and self._socket is None)", ["C08"]),
     ("I9-phase-ends-when-connected", "implies(ghost.in_phase, not self.is_connected)", ["C05"]),
     ("I10-no-helper-before-the-finish-phase", f"implies(({S} is CS.SOCKET_OPENED or {S} is CS.INITIALIZED) and not ghost.in_phase, self._frame_helper is None)", ["C08"]),
@@ -153,6 +153,7 @@ def install(eng, check_tags=None):
     eng.class_specs[C.APIConnection].fields["_message_handlers"] = "hmap"
     eng.class_aliases["CS"] = C.ConnectionState
     eng.conn_check_tags = check_tags
+    eng.hooks["before_apply"] = inv_at_call
     for k, v in REGIONS.items():
         eng.regions_decl[k] = v
     declare_ghost(eng, **GHOST, **GHOST_AUX, **GHOST_OWNED)
@@ -1220,8 +1221,9 @@ def cut(eng, st, selfref, why, check=True, reentrant_only=False):
     st.note(f"cut:{why}")
 
 
-def entry_setup(eng, st):
-    """Entry of an entry point: any state satisfying Inv (assumed); the segment starts here."""
+def entry_setup(eng, st, relaxed=()):
+    """Entry of an entry point: any state satisfying Inv (assumed; minus the clauses this function is also called without);
+    the segment starts here."""
     selfref = st.env.f["self"]
     for r in REGIONS:
         region(eng, st, r)
@@ -1229,23 +1231,51 @@ def entry_setup(eng, st):
     for e in tracked_objs(st):
         st.fact(heapmodel.is_old_f(e))                            # the objects named by the inputs existed before this call
     for name, txt, _ in INV:
+        if name in relaxed:
+            continue
         st.assume(eval_clause(eng, st, _parse_expr(txt), {"self": selfref}))
     st.labels = dict(st.labels)
     st.labels["seg"] = st.clone()
     st.labels["seg"].labels = {}
 
 
+def inv_at_call(eng, c, st, fv):
+    """Modularity: a method whose contract was proved from `Inv` at its entry may only be called in a state where `Inv`
+    holds - the clauses it was proved from are obligations of every internal call site."""
+    if not getattr(c, "assumes_inv", False):
+        return
+    selfref = st.env.f.get("self")
+    if not isinstance(selfref, VRef):
+        return
+    tags = getattr(eng, "conn_check_tags", None)
+    relaxed = getattr(c, "inv_relaxed", ())
+    where = f"call:{fv.qualname.split('.')[-1]}"
+    if getattr(c, "has_awaits", False) and not relaxed:
+        # the callee suspends: the caller's segment ends at the call (Step(segment start, now) as well)
+        check_inv_step(eng, st, selfref, where)
+        return
+    for name, txt, ptags in INV:
+        if name in relaxed:
+            continue
+        mine = [t for t in ptags if tags is None or t in tags]
+        g = eval_clause(eng, st, _parse_expr(txt), {"self": selfref})
+        oblige(eng, st, g, f"{where}/Inv:{name}", kind="property" if mine else "auxiliary", tags=mine or None)
+
+
 def conn_contract(qualname, **kw):
     """Contract of a method of APIConnection verified as an entry point (from any Inv state)."""
     setup = kw.pop("setup", None)
+    relaxed = tuple(kw.pop("inv_relaxed", ()))
 
     def _setup(eng, st):
-        entry_setup(eng, st)
+        entry_setup(eng, st, relaxed)
         if setup:
             setup(eng, st)
     kw.setdefault("self_type", "inst[APIConnection]")
     c = Contract(CONN + "APIConnection." + qualname, setup=_setup, **kw)
     c.conn_entry = True
+    c.assumes_inv = True
+    c.inv_relaxed = relaxed
     return c
 
 
